@@ -1,9 +1,9 @@
 #!/bin/bash
-# seedbatch.sh <property id> <name1> <name2>: import both seeds of /tmp/seed-<id>/seed and evaluate them
-PID=$1
+# seedbatch.sh <property id> <name1> <name2> [seed dir]: import both seeds and evaluate them
+PID=$1; DIR=${4:-/tmp/seed-$PID/seed}
 for K in 1 2; do
   NAME=$PID-$(eval echo \${$((K+1))})
-  /verif/driver/seedimport.sh $PID /tmp/seed-$PID/seed $K $NAME || continue
+  /verif/driver/seedimport.sh $PID $DIR $K $NAME || continue
   echo "== check $NAME"
   /verif/driver/seedcheck.sh $PID /verif/seeded/$NAME/patch.diff > /tmp/seedcheck.$NAME.log 2>&1
   echo "exit=$?"; grep -a "VIOLATION\|^OK\|INCONCLUSIVE" /tmp/seedcheck.$NAME.log | head -2 | cut -c1-200; grep -a -A1 "VIOLATION" /tmp/seedcheck.$NAME.log | grep -av VIOLATION | head -1 | cut -c1-300
